@@ -242,6 +242,9 @@ def cert_bundle_eids(cert_der):
         ext = cert.extensions.get_extension_for_oid(x509.oid.ExtensionOID.SUBJECT_ALTERNATIVE_NAME)
     except x509.ExtensionNotFound:
         return out
+    except (x509.DuplicateExtension, x509.UnsupportedGeneralNameType, ValueError) as err:
+        # a certificate whose extensions do not parse (a flipped bit inside the x5chain) names nobody
+        raise CoseError('certificate extensions do not parse: %s' % err)
     for name in ext.value.get_values_for_type(x509.OtherName):
         if name.type_id.dotted_string == '1.3.6.1.5.5.7.8.11' and len(name.value) >= 2 and name.value[0] == 0x16:
             length = name.value[1]
